@@ -27,7 +27,7 @@ CLAIMED["C02"] = dict(
          "shown equal to the textbook EKF step in covariance form for all three factorisations, three calibration "
          "modes, TS0/TS1, first/second-order ODEs (z3 QF_LRA unsat on linearised polynomial-identity obligations); "
          "solve_fixed_grid is shown to be init followed by exactly these steps (relational, same trace). By induction "
-         "this covers every grid; the induction itself is stated, not machine-checked. Also solver.init with an initial-constraint update from an arbitrary initial distribution (posterior, solution_full, MLE bookkeeping).",
+         "this covers every grid; the induction itself is stated, not machine-checked. Also solver.init with an initial-constraint update from an arbitrary initial distribution (posterior, solution_full, MLE bookkeeping) and from exactly known initial coefficients (definedness replayed on the real code; the NaN of solver_mle there is a recorded known finding).",
     technique="jaxpr symbolic execution + polynomial hypotheses + z3 QF_LRA (XL certificates); z3 NRA refutation; float64 replay",
     design="§4 C02")
 
